@@ -6,8 +6,8 @@
 
   `WF root` is what the SDK's containers guarantee for an identifiable and everything below it: children only
   under UniqueIdShortNamespaces, non-identifiable, with a valid id_short unique among their siblings unless the
-  parent is a SubmodelElementList (then they are addressed by position), fewer than 10^2000 siblings (so that
-  `str(index)` passes `check_identifier`'s length limit).
+  parent is a SubmodelElementList (then they are addressed by position), fewer than 10^2000 siblings (stated as
+  `len(str(len(children))) ≤ 2000`, so that `str(index)` passes `check_identifier`'s length limit).
 -/
 import Basyx.Lemmas.Tree
 namespace Basyx.Tree
@@ -203,25 +203,209 @@ theorem c07_path_fails {t : Tree} {segs : List Str} {e : Err} (h : getReferable 
     Fails t segs e ∧ (e = .typeError ∨ e = .valueError ∨ e = .keyError) := by
   have hf := getReferable_fails segs t e h
   refine ⟨hf, ?_⟩
+  clear h
   induction hf with
   | notNamespace _ => exact Or.inl rfl
   | notAnInteger _ _ _ => exact Or.inr (Or.inl rfl)
   | noSuchPosition _ _ _ _ _ => exact Or.inr (Or.inr rfl)
   | unknownIdShort _ _ _ => exact Or.inr (Or.inr rfl)
-  | deeper i c hok _ ih =>
-    rcases hok with ⟨hc, hns, hstep⟩
-    unfold getReferable at h
-    by_cases hl : _ = Kind.list
-    · simp only [hl, if_true] at hstep
-      have hneg : ¬ ((i : Int) < 0) := by omega
-      simp only [hns, Bool.not_true, Bool.false_eq_true, if_false, hl, if_true, hstep, hneg, Int.toNat_natCast, hc] at h
-      cases hr : getReferable c _ with
-      | ok q => simp [hr, Except.map] at h
-      | error e' => simp only [hr, Except.map, Except.error.injEq] at h; subst h; exact ih hr
-    · exact absurd rfl (fun _ => by
-        -- the non-list case is settled by the general theorem below; here we only need the kind of the error
-        exact (by
-          have := getReferable_fails _ _ _ h
-          exact this) |> fun _ => False.elim (by exact absurd rfl hl))
+  | deeper _ _ _ _ ih => exact ih
+
+private theorem fails_append {n : Tree} {b : List Str} {e : Err} : ∀ (a : List Str) (t : Tree) (p : Path),
+    StepsMatch t p a → sub t p = some n → Fails n b e → Fails t (a ++ b) e
+  | [], t, [], _, hn, hf => by simp [sub] at hn; subst hn; simpa using hf
+  | [], _, _ :: _, h, _, _ => by simp [StepsMatch] at h
+  | _ :: _, _, [], h, _, _ => by simp [StepsMatch] at h
+  | s :: a, t, i :: p, h, hn, hf => by
+    rcases h with ⟨c, hok, hrest⟩
+    rw [sub_cons hok.1] at hn
+    exact .deeper i c hok (fails_append a c p hrest hn hf)
+
+/-- the negative clauses in one statement: follow the path of an existing element `x` (at `p` below `t`), then go on
+    with segments that fail at `x` for reason `Fails x b e` — the lookup fails with exactly that error -/
+theorem c07_fails_below {t x : Tree} {p : Path} {segs b : List Str} {e : Err} (hw : WFSub t) (hx : sub t p = some x)
+    (hsegs : segsAlong t p = some segs) (hf : Fails x b e) : getReferable t (segs ++ b) = .error e := by
+  rcases segsAlong_matches p t x hw hx with ⟨segs', hs', hm⟩
+  rw [hsegs] at hs'; cases hs'
+  exact fails_getReferable hw (fails_append segs t p hm hx hf)
+
+/-- an extra trailing key below an element that cannot have children: TypeError -/
+theorem c07_trailing_below_leaf {t x : Tree} {p : Path} {segs rest : List Str} {s : Str} (hw : WFSub t)
+    (hx : sub t p = some x) (hsegs : segsAlong t p = some segs) (hleaf : isNamespace x.kind = false) :
+    getReferable t (segs ++ s :: rest) = .error .typeError :=
+  c07_fails_below hw hx hsegs (.notNamespace hleaf)
+
+/-- an unknown id_short below a (non-list) namespace: KeyError -/
+theorem c07_unknown_idshort {t x : Tree} {p : Path} {segs rest : List Str} {s : Str} (hw : WFSub t)
+    (hx : sub t p = some x) (hsegs : segsAlong t p = some segs) (hns : isNamespace x.kind = true)
+    (hl : x.kind ≠ .list) (hnone : ∀ c ∈ x.children, c.idShort ≠ some s) :
+    getReferable t (segs ++ s :: rest) = .error .keyError :=
+  c07_fails_below hw hx hsegs (.unknownIdShort hns hl hnone)
+
+/-- an index out of range, or a negative one, under a list: KeyError (never the element counted from the end) -/
+theorem c07_bad_index {t x : Tree} {p : Path} {segs rest : List Str} {s : Str} {i : Int} (hw : WFSub t)
+    (hx : sub t p = some x) (hsegs : segsAlong t p = some segs) (hl : x.kind = .list) (hi : pyInt s = some i)
+    (hbad : i < 0 ∨ x.children.length ≤ i.toNat) : getReferable t (segs ++ s :: rest) = .error .keyError :=
+  c07_fails_below hw hx hsegs (.noSuchPosition i (by simp [hl]) hl hi hbad)
+
+/-- a segment that is no integer literal under a list: ValueError -/
+theorem c07_non_numeric_index {t x : Tree} {p : Path} {segs rest : List Str} {s : Str} (hw : WFSub t)
+    (hx : sub t p = some x) (hsegs : segsAlong t p = some segs) (hl : x.kind = .list) (hi : pyInt s = none) :
+    getReferable t (segs ++ s :: rest) = .error .valueError :=
+  c07_fails_below hw hx hsegs (.notAnInteger (by simp [hl]) hl hi)
+
+/-- an identifier no provider knows: KeyError -/
+theorem c07_unknown_identifier {prov : List Store} {k0 : Key} {rest : List Key} {ty : Cls}
+    (hid : k0.type.isAasIdentifiable = true) (hnone : muxGet prov k0.value = none) :
+    resolve prov ⟨k0 :: rest, ty⟩ = .error .keyError := by
+  simp [resolve, hid, hnone]
+
+/-- every failure of `resolve` on a constructed reference: unknown identifier (KeyError), a failing step below the
+    identifiable the provider returned (`Fails`: TypeError / ValueError / KeyError), or an element of another type
+    (UnexpectedTypeError, which carries the element found) -/
+theorem c07_resolve_fails {prov : List Store} {r r0 : MRef} {e : Err} (hr : mkModelReference r0.keys r0.type = .ok r)
+    (h : resolve prov r = .error e) :
+    ∃ k0 rest, r.keys = k0 :: rest ∧
+      ((muxGet prov k0.value = none ∧ e = .keyError)
+       ∨ (∃ u root, muxGet prov k0.value = some (u, root) ∧ Fails root (rest.map (·.value)) e)
+       ∨ (∃ u root q n, muxGet prov k0.value = some (u, root) ∧ getReferable root (rest.map (·.value)) = .ok q
+            ∧ sub root q = some n ∧ isInstance n.kind r.type = false ∧ e = .unexpectedType)) := by
+  unfold mkModelReference at hr
+  cases hk : r0.keys with
+  | nil => simp [hk] at hr
+  | cons k0 rest =>
+    simp only [hk] at hr
+    by_cases hid : k0.type.isAasIdentifiable = true
+    · have hkeys : r.keys = k0 :: rest := by
+        simp only [hid, Bool.not_true, Bool.false_eq_true, if_false] at hr
+        split at hr
+        · cases hr
+        · split at hr
+          · cases hr
+          · split at hr
+            · cases hr
+            · cases hr; rfl
+      refine ⟨k0, rest, hkeys, ?_⟩
+      unfold resolve at h
+      simp only [hkeys, hid, Bool.not_true, Bool.false_eq_true, if_false] at h
+      cases hm : muxGet prov k0.value with
+      | none => simp only [hm, Except.error.injEq] at h; exact Or.inl ⟨rfl, h.symm⟩
+      | some x =>
+        obtain ⟨u, root⟩ := x
+        simp only [hm] at h
+        cases hg : getReferable root (rest.map (·.value)) with
+        | error e' =>
+          simp only [hg, Except.error.injEq] at h; subst h
+          exact Or.inr (Or.inl ⟨u, root, rfl, getReferable_fails _ _ _ hg⟩)
+        | ok q =>
+          simp only [hg] at h
+          rcases StepsMatch.sub_some _ root q (getReferable_sound _ root q hg) with ⟨n, hn⟩
+          simp only [hn] at h
+          by_cases hi : isInstance n.kind r.type = true
+          · simp [hi] at h
+          · simp only [hi, Bool.false_eq_true, if_false, Except.error.injEq] at h
+            exact Or.inr (Or.inr ⟨u, root, q, n, rfl, hg, hn, by simpa using hi, h.symm⟩)
+    · simp [hid] at hr
+
+/-! ### C07: value objects -/
+
+theorem c07_key_eq_iff (a b : Key) : keyEq a b = true ↔ a = b := by
+  cases a; cases b; simp [keyEq, and_comm]
+
+/-- equal keys hash equal: `__hash__` hashes `(value, type)`, the pair `__eq__` compares -/
+theorem c07_key_eq_hash {a b : Key} (h : keyEq a b = true) : keyHashArg a = keyHashArg b := by
+  rw [(c07_key_eq_iff a b).1 h]
+
+private theorem keysEqZip_hash : ∀ (k1 k2 : List Key), k1.length = k2.length → keysEqZip k1 k2 = true →
+    k1.map keyHashArg = k2.map keyHashArg
+  | [], [], _, _ => rfl
+  | [], _ :: _, hl, _ => by simp at hl
+  | _ :: _, [], hl, _ => by simp at hl
+  | a :: as, b :: bs, hl, h => by
+    simp only [keysEqZip, Bool.and_eq_true] at h
+    simp [c07_key_eq_hash h.1, keysEqZip_hash as bs (by simpa using hl) h.2]
+
+/-- equal references hash equal: `__hash__` covers class and key tuple, `__eq__` additionally compares
+    referred_semantic_id (and ignores the `type_` of a ModelReference) -/
+theorem c07_ref_eq_hash {a b : RefV} (h : refEq a b = true) : refHashArg a = refHashArg b := by
+  cases a with | mk c1 k1 t1 r1 =>
+  cases b with | mk c2 k2 t2 r2 =>
+  unfold refEq at h
+  by_cases hc : c1 = c2
+  · by_cases hl : k1.length = k2.length
+    · simp only [hc, ne_eq, not_true_eq_false, if_false, hl, Bool.and_eq_true] at h
+      simp [refHashArg, hc, keysEqZip_hash k1 k2 hl h.1]
+    · simp [hc, hl] at h
+  · simp [hc] at h
+
+private theorem optRefEq_hash {a b : Option RefV} (h : optRefEq a b = true) :
+    a.map refHashArg = b.map refHashArg := by
+  cases a <;> cases b <;> simp_all [optRefEq]
+  exact c07_ref_eq_hash h
+
+/-- equal specific asset ids hash equal -/
+theorem c07_sai_eq_hash {a b : Sai} (h : saiEq a b = true) : saiHashArg a = saiHashArg b := by
+  unfold saiEq at h
+  simp only [Bool.and_eq_true] at h
+  obtain ⟨⟨⟨⟨h1, h2⟩, h3⟩, _⟩, _⟩ := h
+  have e1 : a.name = b.name := by simpa using h1
+  have e2 : a.value = b.value := by simpa using h2
+  unfold saiHashArg
+  rw [e1, e2, optRefEq_hash h3]
+
+/-- assignment to any attribute of a Key or a Reference raises; a SpecificAssetId lets through only the two
+    protected slots HasSemantics needs and `parent = None` (which is what it already is) — no public attribute -/
+theorem c07_immutable (name : Str) (valueIsNone : Bool) :
+    keySetattr name = .attributeError ∧ refSetattr name = .attributeError
+    ∧ (saiSetattr name valueIsNone = .assigned →
+        name = nmSemanticId ∨ name = nmSupplementalSemanticId ∨ (name = nmParent ∧ valueIsNone = true)) := by
+  refine ⟨rfl, rfl, ?_⟩
+  intro h
+  unfold saiSetattr at h
+  split at h
+  · rename_i hc
+    simp only [Bool.or_eq_true, Bool.and_eq_true, decide_eq_true_eq] at hc
+    rcases hc with (h1 | h2) | h3
+    · exact Or.inl h1
+    · exact Or.inr (Or.inl h2)
+    · exact Or.inr (Or.inr h3)
+  · cases h
+
+/-- FULL CLAIM (false on the pinned tree): nothing reachable through the public attributes of a SpecificAssetId
+    changes it.  Negation witness — the known finding `value:SpecificAssetId:supplemental_semantic_id:list-mutable`:
+    appending to the handed-out supplemental_semantic_id list succeeds and yields a value that is no longer equal
+    to the original while hashing the same. -/
+theorem c07_sai_list_mutable_witness :
+    ∃ (s s' : Sai) (r : RefV), saiAppendSupplemental s r = .ok s' ∧ saiEq s s' = false ∧ saiHashArg s = saiHashArg s' :=
+  ⟨⟨['n'], ['v'], none, some (.mk .external [⟨.globalReference, ['g']⟩] .referable none), []⟩, _,
+   .mk .external [⟨.globalReference, ['h']⟩] .referable none, rfl, by decide, by decide⟩
+
+/-! ### non-vacuity: the hypotheses are satisfiable, the statements are not empty -/
+
+deriving instance DecidableEq for Except
+
+/-- a submodel holding a list of lists of properties, an operation and an entity -/
+def exTree : Tree :=
+  .node .submodel "urn:x".toList none [] [
+    .node .list [] (some "outer".toList) [] [
+      .node .list [] (some "g0".toList) [] [
+        .node .property [] (some "g1".toList) [] [],
+        .node .property [] (some "g2".toList) [] []]],
+    .node .operation [] (some "op".toList) [] [.node .blob [] (some "in".toList) [] []],
+    .node .entity [] (some "e".toList) [] []]
+
+example : WF exTree := wfb_sound (by decide)
+example : (sub exTree [0, 0, 1]).map (fun n => (n.kind, n.idShort)) = some (.property, some "g2".toList) := by decide
+example : (fromReferable exTree [0, 0, 1]).toOption.map (·.keys.map (·.value)) =
+    some ["urn:x".toList, "outer".toList, ['0'], ['1']] := by decide
+example : resolve [[], [(7, exTree)]] ⟨[⟨.submodel, "urn:x".toList⟩, ⟨.submodelElementList, "outer".toList⟩,
+    ⟨.submodelElementList, ['0']⟩, ⟨.property, ['1']⟩], .k .property⟩ = .ok (7, [0, 0, 1]) := by decide
+example : getReferable exTree ["outer".toList, ['0'], "-1".toList] = .error .keyError := by decide
+example : getReferable exTree ["outer".toList, "+0".toList, " 1 ".toList] = .ok [0, 0, 1] := by decide
+example : getReferable exTree ["outer".toList, ['0'], ['x']] = .error .valueError := by decide
+example : getReferable exTree ["op".toList, "in".toList, ['x']] = .error .typeError := by decide
+example : getReferable exTree ["nope".toList] = .error .keyError := by decide
+example : keyEq ⟨.submodel, ['a']⟩ ⟨.submodel, ['a']⟩ = true ∧ keyEq ⟨.submodel, ['a']⟩ ⟨.property, ['a']⟩ = false := by decide
+example : saiSetattr "parent".toList true = .assigned ∧ saiSetattr "name".toList true = .attributeError := by decide
 
 end Basyx.Tree
